@@ -120,8 +120,11 @@ def decode_multipart(content_type, payload):
     return out
 
 
-def make_doc(version, param, body_kind, base_path):
+def make_doc(version, param, body_kind, base_path, trailing_slash=False):
     template = "/op/{v}/end" if param["in"] == "path" else "/op"
+    if trailing_slash:
+        # a template may end in a slash (and the variable may be its last segment before it)
+        template = "/op/{v}/" if param["in"] == "path" else "/op/"
     op = {"parameters": [param], "responses": {"200": {"description": "ok"}}}
     method = "get"
     body_schema = None
@@ -428,7 +431,7 @@ def run_shard(spec, emit):
                     emit.count("jobs_skipped_budget")
                     continue
                 base_path = rng.choice(["", "/api", "/api/v1"])
-                doc, template, method = make_doc(version, param, body_kind, base_path if version == "2.0" else "")
+                doc, template, method = make_doc(version, param, body_kind, base_path if version == "2.0" else "", trailing_slash=rng.random() < 0.25)
                 try:
                     schema = schemathesis.openapi.from_dict(doc)
                     use_wsgi = rng.random() < 0.2
@@ -601,7 +604,7 @@ def wsgi_part(rng, emit, capture, tier):
     matrix = [m for m in operations_matrix() if m[1] == "3.0"]
     for key, version, param, kind in rng.sample(matrix, 8 if tier == "quick" else 40):
         body_kind = rng.choice(["json", "form", "multipart", "text"])
-        doc, template, method = make_doc(version, param, body_kind, "")
+        doc, template, method = make_doc(version, param, body_kind, "", trailing_slash=rng.random() < 0.35)
         flavour = rng.choice(["wsgi", "asgi"])
         app = WsgiCapture() if flavour == "wsgi" else AsgiCapture()
         try:
